@@ -146,3 +146,25 @@ MUTANTS['C03'] = [
   ('cache-items-keys-shifted', [(C, "            for i in range(len(self)):\n                yield keys[i], self[i]", "            for i in range(len(self)):\n                yield keys[i - 1 if i == 3 else i], self[i]")]),
   ('keyzip-keys-of-second', [(C, "            self._keys = self.input_datasets[0].keys()", "            self._keys = self.input_datasets[-1].keys()")]),
 ]
+
+
+def _pick(prop, *names):
+    return [m for m in MUTANTS[prop] if m[0] in names]
+
+
+MUTANTS['C16'] = (
+    _pick('C01', 'batch-iter-gt', 'unbatch-drops-empty-tail',
+          'slice-copy-reslices', 'cache-iter-range-minus-one')
+    + _pick('C02', 'concat-getitem-lt', 'batch-len-floor', 'batch-getitem-no-reraise-at-0',
+            'slice-oob-wraps')
+    + _pick('C03', 'map-items-unmapped', 'slice-keys-no-single-special-case')
+    + [
+  ('map-getitem-skips-function-for-negative', [(C, "        if isinstance(item, (str, numbers.Integral)):\n            return self.map_function(self.input_dataset[item])", "        if isinstance(item, (str, numbers.Integral)):\n            if not isinstance(item, str) and item < -1:\n                return self.input_dataset[item]\n            return self.map_function(self.input_dataset[item])")]),
+  ('tile-one-rep-less-for-three', [(C, "        datasets = [self] * reps\n", "        datasets = [self] * (reps if reps != 3 else 2)\n")]),
+  ('split-last-part-drops-one', [(C, "        return [self[s] for s in slices]", "        return [self[s] for s in slices[:-1]] + [self[slices[-1][:-1] if len(slices) == 3 and len(slices[-1]) > 1 else slices[-1]]]")]),
+  ('eager-filter-off', [(C, "idx = [i for i, e in enumerate(self) if filter_fn(e)]", "idx = [i for i, e in enumerate(self) if filter_fn(e) or i == 3]")]),
+])
+
+# Mutants the law monitor C16 is known NOT to see (both sides of every law share
+# the defect, or no law mentions the operation); the model-based C01/C03 do:
+#   C01 intersperse-order-key, C03 slice-foreign-key-forwarded
